@@ -21,7 +21,7 @@ Canonical sequence  seq := {"steps": [step...], "ret": ret}
   ret  := ["ok", sym] | ["okwhole", sym] (remainder is the empty slice) | ["err", kind, severity] | ["okrem", sym_rem, sym]
 Symbolic expressions are nested lists, see sym helpers below. Binders are "b<N>" numbered in emission order.
 """
-import json
+import json, re
 from .core import strip, strip_ref, is_try, path_of, short_loc
 
 WIDTH = {"u8": 8, "u16": 16, "u32": 32, "u64": 64, "usize": 64, "u128": 128, "i8": 8, "i16": 16, "i32": 32, "i64": 64, "isize": 64}
@@ -297,6 +297,8 @@ class Builder:
         self.cur = cur if cur is not None else self.counter.fresh_tok()
         self.hist = []
         self.drops_remainder = False
+        self.input_alias = None  # a region value (sym) that denotes this builder's input at position alias_at
+        self.alias_at = None
 
     # -- token for the current position
     def tok(self):
@@ -309,7 +311,13 @@ class Builder:
     def child(self, same_input=True, drops=False):
         nb = Builder(self.counter, self.cur if same_input else None)
         nb.drops_remainder = drops or (same_input and self.drops_remainder)
+        if same_input and self.input_alias is not None and self.alias_at == self.cur:
+            nb.input_alias, nb.alias_at = self.input_alias, nb.cur
         return nb
+
+    def is_cur(self, s):
+        """does sym s denote the current input position?"""
+        return s == ["tok", self.cur] or (self.input_alias is not None and s == self.input_alias and self.alias_at == self.cur)
 
     def seq(self):
         return {"steps": self.steps, "ret": self.ret}
@@ -752,8 +760,7 @@ class Ev:
             if extra_syms is not None and idx < len(extra_syms):
                 val = extra_syms[idx]
             else:
-                nm = p.get("name", "arg%d" % idx)
-                val = P(nm)
+                val = P("arg%d" % (idx + 1))  # positional: parameter names are not part of the behaviour
             self.bind_pat(p, val, env)
         self.depth += 1
         try:
@@ -851,7 +858,7 @@ class Ev:
         rem = self.sym(t["xs"][0], env, gen)
         val = self.sym(t["xs"][1], env, gen)
         cur = b.tok()
-        if rem == cur:
+        if b.is_cur(rem):
             return val
         # remainder written by hand
         if rem == ["bytes_lit", []]:
@@ -996,7 +1003,7 @@ class Ev:
             return self.eval_tuple_expr(e["expr"], env2, gen, b, rem_wild)
         if k == "tup" and len(e["xs"]) == 2:
             rem = self.sym(e["xs"][0], env, gen)
-            if rem != b.tok():
+            if not b.is_cur(rem):
                 self.anomalies.append(("REMAINDER", "tuple literal with foreign remainder", short_loc(e.get("loc"))))
             return self.sym(e["xs"][1], env, gen)
         if k == "match":
@@ -1012,13 +1019,13 @@ class Ev:
             # match / if / block of results: evaluate in place (arms decide)
             if e["k"] in ("match", "if", "block"):
                 arms_tok = self.common_input(e, env, gen)
-                if arms_tok is not None and arms_tok != cur and arms_tok[0] != "tok":
+                if arms_tok is not None and not b.is_cur(arms_tok) and arms_tok[0] != "tok":
                     return self.sub_eval(e, env, gen, b, arms_tok)
                 return self.eval_result_block(e, env, gen, b)
             return self.eval_result_block(e, env, gen, b)
-        if tok == cur:
+        if b.is_cur(tok):
             if rem_wild:
-                return b.peek(lambda nb: self.eval_result_block(e, self.env_retok(env, cur, nb.tok()), gen, nb))
+                return b.peek(lambda nb: self.eval_result_block(e, env, gen, nb))
             return self.eval_result_block(e, env, gen, b)
         if tok[0] == "tok":
             if tok[1] in b.hist:
@@ -1032,8 +1039,8 @@ class Ev:
 
     def sub_eval(self, e, env, gen, b, region):
         def inner(nb):
-            env2 = self.env_retok(env, region, nb.tok())
-            return self.eval_result_block(e, env2, gen, nb)
+            nb.input_alias, nb.alias_at = region, nb.cur
+            return self.eval_result_block(e, env, gen, nb)
         return b.sub(region, inner)
 
     def env_retok(self, env, old, new):
@@ -1545,6 +1552,11 @@ class Ev:
                 r = self.pure_call(p, [recv] + args, e)
                 if r[0] != "call":
                     return r
+            if p in ("core::result::Result::<T, E>::expect", "core::result::Result::<T, E>::unwrap") and recv[0] == "mcall" and recv[1].endswith("TryInto::try_into") or \
+                    (p in ("core::result::Result::<T, E>::expect", "core::result::Result::<T, E>::unwrap") and recv[0] == "mcall" and "try_into" in recv[1]):
+                m = re.match(r"&\[u8; (\d+)(?:_usize)?\]", e.get("ty", ""))
+                if m:
+                    return ["array", int(m.group(1)), recv[2][0]]
             return canon_mcall(p, [recv] + args)
         if k == "closure":
             return self.lam(e, env, gen)
